@@ -32,7 +32,8 @@ FirstRaise == LET S == {k \in 1..Len(cfg.body) : cfg.body[k].k \in {"raise", "in
 
 TNew == /\ l = 1 /\ Is("new") /\ Adv
         /\ UNCHANGED <<vars, oterm, oclock, sync>>
-        /\ Check(tid, l, "H.cfg", "", /\ \A m \in Msgs : m # <<>> /\ \A k \in 1..Len(m) : m[k] \notin ValueSet \cup {" "}
+        /\ Check(tid, l, "H.cfg", "", /\ cfg.end # <<>> /\ Len(cfg.values) >= 2
+                                      /\ \A m \in Msgs : \A k \in 1..Len(m) : m[k] \notin {cfg.values[j] : j \in 1..Len(cfg.values)} \cup {" "}
                                       /\ \A m \in Msgs : Len(m) + 3 < cfg.w
                                       /\ cfg.mode \in {"ansi", "plain", "quiet"})
 
@@ -43,7 +44,7 @@ StepOps == {"write", "sleep", "start", "join", "set", "setret", "isset", "acquir
 PStep == /\ oterm' = ApplyOps(oterm, E.ops)
          /\ oclock' = oclock + (IF E.th = "T" THEN E.dt ELSE 0)
          /\ Check(tid, l, "H.ops.known", "", AllKnown(E.ops) /\ (E.ops # <<>> => E.op = "write"))
-         /\ Check(tid, l, "P.nomix", E.th, NoMixT(oterm', Msgs, cfg.mode))
+         /\ Check(tid, l, "P.nomix", E.th, NoMixT(oterm', Msgs, cfg.mode, cfg.values))
 
 TFollow == /\ l > 1 /\ l <= Len(T) /\ E.op \in StepOps /\ Adv
            /\ sync /\ ModelCan(E.th)
@@ -76,7 +77,7 @@ TEnd == /\ l > 1 /\ Is("end") /\ Adv
         /\ Check(tid, l, "P.terminates", "", E.outcome # "stuck")
         /\ Check(tid, l, "P.joined", E.outcome, ~E.salive)
         /\ Check(tid, l, "P.endframe", IF E.outcome = "normal" THEN "frame" ELSE E.exc,
-                 ~Raises => (E.outcome = "normal" /\ (Quiet \/ EndFrameT(oterm, cfg.end, cfg.mode, r0))))
+                 ~Raises => (E.outcome = "normal" /\ (Quiet \/ EndFrameT(oterm, cfg.end, cfg.mode, r0, cfg.values))))
         \* auto() is a context manager: what leaves the with-block is the body's own exception, never one of auto()'s making
         /\ Check(tid, l, "P.foreign", E.exc, E.outcome = "raised" =>
                    (Raises /\ E.exc = (IF FirstRaise = "raise" THEN "BodyError" ELSE "KeyboardInterrupt")))
